@@ -67,8 +67,12 @@ func (c *channel) SendError(msg *net.Message, err error) error {
 	return c.Send(&mError)
 }
 
-// SendReply send a reply message in response to msg.
+// SendReply send a reply message in response to msg. Like SendError
+// it answers calls only.
 func (c *channel) SendReply(msg *net.Message, response []byte) error {
+	if msg.Header.Type != net.Call {
+		return nil
+	}
 	hdr := msg.Header
 	hdr.Type = net.Reply
 	reply := net.NewMessage(hdr, response)
@@ -133,6 +137,9 @@ func (c *tracedChannel) SendError(msg *net.Message, err error) error {
 }
 
 func (c *tracedChannel) SendReply(msg *net.Message, response []byte) error {
+	if msg.Header.Type != net.Call {
+		return nil
+	}
 	hdr := msg.Header
 	hdr.Type = net.Reply
 	reply := net.NewMessage(hdr, response)
@@ -162,6 +169,9 @@ func (c *statChannel) SendError(msg *net.Message, err error) error {
 }
 
 func (c *statChannel) SendReply(msg *net.Message, response []byte) error {
+	if msg.Header.Type != net.Call {
+		return nil
+	}
 	hdr := msg.Header
 	hdr.Type = net.Reply
 	reply := net.NewMessage(hdr, response)
